@@ -929,9 +929,29 @@ func (x *Exec) localValue(fr *Frame, st *State, v *types.Var) Term {
 	panic(engErr("loop invariant mentions %s, which has no cell in %s", v.Name(), fr.fn.Name()))
 }
 
+// autoInvariant: -1 <= idx < len for range loops over slices (checked like any invariant).
+func (x *Exec) autoInvariant(fr *Frame, h *ssa.BasicBlock, st *State) (Term, bool) {
+	cell, ln := rangeIndexOf(h)
+	if cell == nil || ln == nil {
+		return Term{}, false
+	}
+	cur, ok := st.cells[cellKey{fr.id, cell}]
+	if !ok {
+		return Term{}, false
+	}
+	lt0, ok := fr.regs[ln]
+	if !ok {
+		return Term{}, false
+	}
+	return and(le(intLit(-1), cur), or(lt(cur, lt0), eq(cur, intLit(-1)))), true
+}
+
 func (x *Exec) checkInvariants(fr *Frame, h *ssa.BasicBlock, st *State, when string) {
 	if fr.spec {
 		return
+	}
+	if t, ok := x.autoInvariant(fr, h, st); ok {
+		x.oblige(fr, "invariant@"+when, fmt.Sprintf("loop %d auto: range index within bounds", loopOrdinal(fr.fn, h)), st, t, h.Instrs[0].Pos())
 	}
 	ls := x.loopSpec(fr, h)
 	if ls == nil {
@@ -1031,6 +1051,9 @@ func (x *Exec) enterLoop(fr *Frame, h *ssa.BasicBlock, st *State) *State {
 	}
 	// iterators created before the loop but advanced inside are covered by "i:" keys
 	// 4. assume invariants
+	if t, ok := x.autoInvariant(fr, h, hs); ok && !fr.spec {
+		x.vc.assert(implies(hs.reach, t))
+	}
 	if ls := x.loopSpec(fr, h); ls != nil && !fr.spec {
 		for _, cl := range ls.Invariants {
 			gf := x.eng.ghostFunc(fr.fn.Pkg.Pkg.Path(), cl.Ghost)
